@@ -84,9 +84,9 @@ theorem step_header (fuel : Nat) (rest : Bytes) :
     parseNext (fuel + 1) (te ++ (le ++ rest)) =
       if t = 0 then (.ok (.data l), rest)
       else if t = 1 then (.ok (.headers l), rest)
-      else if t = 4 then parseSettingsFrame l rest
+      else if t = 4 then truncated (parseSettingsFrame l rest)
       else if isReservedType t then (.error (.reserved t), rest)
-      else if rest.length < l then (.error .eof, [])
+      else if rest.length < l then (.error .unexpectedEOF, [])
       else parseNext fuel (rest.drop l) := by
   rw [parseNext, ht (le ++ rest)]
   simp only
@@ -103,7 +103,7 @@ theorem step_skip (fuel : Nat) (payload rest : Bytes) (hs : isSkipped t = true)
   rw [← hp]; simp
 
 theorem step_short_skip (fuel : Nat) (part : Bytes) (hs : isSkipped t = true) (hp : part.length < l) :
-    parseNext (fuel + 1) (te ++ (le ++ part)) = (.error .eof, []) := by
+    parseNext (fuel + 1) (te ++ (le ++ part)) = (.error .unexpectedEOF, []) := by
   rw [step_header ht hl]
   simp only [isSkipped, Bool.and_eq_true, bne_iff_ne, ne_eq, Bool.not_eq_true'] at hs
   obtain ⟨⟨⟨h0, h1⟩, h4⟩, hr⟩ := hs
@@ -112,14 +112,55 @@ theorem step_short_skip (fuel : Nat) (part : Bytes) (hs : isSkipped t = true) (h
 end step
 
 theorem trunc_type (fuel : Nat) (tail : Bytes) (e : PErr) (h : Req.H3.Varint.read tail = .error e) :
-    parseNext (fuel + 1) tail = (.error .eof, []) := by
+    parseNext (fuel + 1) tail = (.error (if tail.isEmpty then .eof else .unexpectedEOF), []) := by
   rw [parseNext, h]
 
 theorem trunc_len (fuel : Nat) (te tail : Bytes) (t : Nat) (ht : IsVarint te t) (e : PErr)
-    (h : Req.H3.Varint.read tail = .error e) : parseNext (fuel + 1) (te ++ tail) = (.error .eof, []) := by
+    (h : Req.H3.Varint.read tail = .error e) :
+    parseNext (fuel + 1) (te ++ tail) = (.error .unexpectedEOF, []) := by
   rw [parseNext, ht tail]
   simp only
   rw [h]
+
+/-! ### `io.EOF` only at a frame boundary -/
+
+theorem truncated_ne_eof (r : Except Err Frame × Bytes) : (truncated r).1 ≠ .error .eof := by
+  obtain ⟨a, b⟩ := r
+  cases a with
+  | ok f => simp [truncated]
+  | error e => cases e <;> simp [truncated]
+
+theorem branch_eof (t l : Nat) (r2 : Bytes) (fuel : Nat) :
+    (if t = 0 then ((.ok (.data l) : Except Err Frame), r2)
+      else if t = 1 then (.ok (.headers l), r2)
+      else if t = 4 then truncated (parseSettingsFrame l r2)
+      else if isReservedType t then (.error (.reserved t), r2)
+      else if r2.length < l then (.error .unexpectedEOF, [])
+      else parseNext fuel (r2.drop l)).1 = .error .eof ↔
+    (isSkipped t = true ∧ l ≤ r2.length ∧ (parseNext fuel (r2.drop l)).1 = .error .eof) := by
+  by_cases h0 : t = 0
+  · subst h0; simp [isSkipped]
+  by_cases h1 : t = 1
+  · subst h1; simp [isSkipped]
+  by_cases h4 : t = 4
+  · subst h4
+    simp only [show (4 : Nat) ≠ 0 by decide, show (4 : Nat) ≠ 1 by decide, ↓reduceIte]
+    constructor
+    · intro h; exact absurd h (truncated_ne_eof _)
+    · intro h; simp [isSkipped] at h
+  by_cases hr : isReservedType t = true
+  · simp [h0, h1, h4, hr, isSkipped]
+  · have hs : isSkipped t = true := by simp [isSkipped, h0, h1, h4, hr]
+    simp only [h0, h1, h4, hr, hs, ↓reduceIte, Bool.false_eq_true, true_and]
+    by_cases hlt : r2.length < l
+    · simp only [hlt, ↓reduceIte]
+      constructor
+      · intro h; simp at h
+      · intro h; omega
+    · simp only [hlt, ↓reduceIte]
+      constructor
+      · intro h; exact ⟨by omega, h⟩
+      · intro h; exact h.2
 
 /-! ### the consumer loop -/
 
@@ -189,7 +230,7 @@ theorem parseStream_frames (ws : List WFrame) (hw : ∀ w ∈ ws, w.Wf) (k : Nat
       rw [parseStream, step_header ht hl]
       simp only [h4, ↓reduceIte, show (4 : Nat) ≠ 0 by decide, show (4 : Nat) ≠ 1 by decide]
       rw [settingsFrame_ok w.l w.payload X s hp hc hs]
-      simp only
+      simp only [truncated]
       rw [ih']
     · -- skipped
       have hev : w.event = none := by simp [WFrame.event, h0, h1, h4]
